@@ -239,6 +239,29 @@ Section Item.
       rewrite E. reflexivity.
   Qed.
 
+  (* blanks, CR LF, then a byte that is not a blank: the end of the header *)
+  Lemma skipLWS_at_blanks_eol sp x tail : spaces sp -> is_sp x = false -> forall k, skipLWS_at ie (sp ++ CR :: LF :: x :: tail) k = LEOH (k + length sp) 2.
+  Proof.
+    intros Hsp Hx. induction Hsp as [|b sp Hb _ IH]; intros k; cbn [app skipLWS_at length].
+    - change (is_sp CR) with false. change (is_cr CR) with true. change (is_lf LF) with true. cbv iota. rewrite Hx. f_equal. lia.
+    - rewrite Hb, IH. f_equal. lia.
+  Qed.
+  Lemma fol_eoh pre sp x tail i s : spaces sp -> is_sp x = false -> closable s i ->
+    run it pre (sp ++ CR :: LF :: x :: tail) i 0 s = Done (i + nnat (length sp) + 2) EEOH (close_eoi s i).
+  Proof.
+    intros Hsp Hx Hs. rewrite run_after.
+    assert (Hsk : skipLWS ie (sp ++ CR :: LF :: x :: tail) = LEOH (length sp) 2) by (unfold skipLWS; now rewrite skipLWS_at_blanks_eol).
+    assert (Hhd : exists c0 r0, sp ++ CR :: LF :: x :: tail = c0 :: r0 /\ is_ws c0 = true).
+    { destruct sp as [|s0 sp']; [exists CR, (LF :: x :: tail); split; reflexivity|].
+      exists s0, (sp' ++ CR :: LF :: x :: tail). split; [reflexivity|]. inversion Hsp as [|? ? Hs0 _]; subst. unfold is_ws. rewrite Hs0. reflexivity. }
+    destruct Hhd as (c0 & r0 & ER & Hc0).
+    assert (E : it pre (sp ++ CR :: LF :: x :: tail) i s = Ret (i + nnat (length sp) + nnat 2) EEOH (close_eoi s i)).
+    { unfold it, tp_iter, close_eoi. cbv zeta. rewrite ER. destruct Hs as [Ha Hs]. destruct s as [al nm vl st]. cbn [tp_state tp_all tp_name tp_val] in *.
+      destruct st; try contradiction; unfold tp_step, tp_sName, tp_sFEq, tp_sFVal, tp_sVal, tp_sFSep; rewrite Hc0; unfold tp_ws; rewrite <- ER, Hsk;
+        unfold ext2; cbn [tp_name tp_val tp_all]; rewrite ?pf_extend_ok by assumption; reflexivity. }
+    rewrite E. cbn [after]. f_equal.
+  Qed.
+
   (* ---- segments: X is read from state s at offset i, leaving state s' ------------------------------------------------------------------------ *)
   Definition seg (X : list byte) (i : N) (s s' : tokparam) : Prop :=
     forall pre y, run it pre (X ++ y) i 0 s = run it (rev X ++ pre) y (i + nnat (length X)) 0 s'.
@@ -450,6 +473,13 @@ Section Item.
       = Done (e + nnat (length sp)) EEOH (exp_item k a v EEoi 0 PFIN).
     Proof.
       intros Hsp Hie. rewrite item_run, (fol_eoi _ sp e _ Hsp Hie (vstate_closable k a v Hka)). f_equal. apply close_eoi_exp. exact Hka.
+    Qed.
+    (* ended by the end of the header line (after optional blanks): end of header, after the line end *)
+    Theorem item_eoh sp x tail : spaces sp -> is_sp x = false ->
+      parse_tokparam flags (junk ++ item ++ sp ++ CR :: LF :: x :: tail) k tokparam0
+      = Done (e + nnat (length sp) + 2) EEOH (exp_item k a v EEoi 0 PFIN).
+    Proof.
+      intros Hsp Hx. rewrite item_run, (fol_eoh _ sp x tail e _ Hsp Hx (vstate_closable k a v Hka)). f_equal. apply close_eoi_exp. exact Hka.
     Qed.
   End Thm.
 End Item.
